@@ -245,6 +245,37 @@ pub fn run(id: &str, tier: Tier, seed: u64) -> Report {
         }
     }
 
+    if id == "C01" || id == "C11" {
+        // long chains (hundreds of versions, past every one-byte counter), walked at the end
+        let n = tier.pick(300usize, 1500);
+        let mut cases = vec![];
+        for backend in [Backend::Mem, Backend::Sqlite] {
+            for via in [Via::Lib, Via::Http] {
+                if via == Via::Http && backend == Backend::Mem && tier == Tier::Quick {
+                    continue;
+                }
+                let mut ops = vec![];
+                for i in 0..n {
+                    ops.push(Op::AddVersion { c: 0, parent: if i == 0 { IdRef::Fresh(100) } else { IdRef::Latest(0) }, data: d(i as u32) });
+                    if i % 97 == 5 {
+                        ops.push(Op::AddSnapshot { c: 0, version: IdRef::Ancestor(0, (i % 4) as u8), data: d(5000 + i as u32) });
+                    }
+                    if i % 131 == 7 {
+                        ops.push(Op::AddVersion { c: 0, parent: IdRef::Ancestor(0, 3), data: d(9000 + i as u32) });
+                        ops.push(Op::Reopen);
+                    }
+                }
+                cases.push(HCase { backend, via, case: Case { cfg: Cfg { snapshot_days: 14, snapshot_versions: 100 }, salt: 2, nclients: 1, ops } });
+            }
+        }
+        let mut r = engine::enumerate(id, "history", cases, |hc, st| check(id, hc, st));
+        r.exhaustive = false;
+        rep.absorb("long-chains", r);
+        if rep.failed() {
+            return rep;
+        }
+    }
+
     let p = params(id, tier);
     let total: u64 = match id {
         "C07" => tier.pick(6000, 60_000),
